@@ -171,10 +171,24 @@ def position_cases(fine=False):
 
 # ---- term -> polynomial / case evaluation ----------------------------------------------------------------------
 
+class WrongTile(Undecided):
+    """A builder reads the board at a position that is not the tile it is building the state of."""
+
+
 class CaseEval:
-    def __init__(self, sx, case, binds, m, lt, names):
-        """binds: {term: Poly} for length, width, i, j;  names: dict(moves=..., loose=...) parameter names."""
+    def __init__(self, sx, case, binds, m, lt, names, tile=None):
+        """binds: {term: Poly} for length, width, i, j;  names: dict(moves=..., loose=...) parameter names;
+        tile: (Poly row, Poly column) of the tile under construction, when there is one."""
         self.sx, self.case, self.binds, self.m, self.lt, self.names = sx, case, binds, m, lt, names
+        self.tile = tile
+
+    def _own_tile(self, row, col, what):
+        if self.tile is None:
+            return
+        r, c = self.poly(row), self.poly(col)
+        if not (r - self.tile[0]).is_zero() or not (c - self.tile[1]).is_zero():
+            raise WrongTile("%s[%s][%s] is read while the state of tile (i, j) is built: in case %s that is the entry of tile (%r, %r), not of (%r, %r)" % (
+                what, show(row), show(col), self.case.name, r, c, self.tile[0], self.tile[1]))
 
     def poly(self, t):
         if t[0] == "polyval":
@@ -313,8 +327,10 @@ class CaseEval:
         if h == "idx":
             base = t[1]
             if base[0] == "idx" and base[1] == ("v", self.names["moves"]):
+                self._own_tile(base[2], t[2], self.names["moves"])
                 return C(self.m)
             if base[0] == "idx" and base[1] == ("v", self.names["loose"]):
+                self._own_tile(base[2], t[2], self.names["loose"])
                 return C(self.lt)
             b = self.ev(base)
             i = self.ev(t[2])
@@ -525,7 +541,7 @@ class Game:
     def entry(self, block, case, m, lt):
         """The transition list appended for tile (i,j) of `block` in `case` with moves[i][j]=m, loose[i][j]=lt."""
         binds = {self.L: case.L, self.W: case.W, ("elem", block.Lo.id): case.i, ("elem", block.Li.id): case.j}
-        ce = CaseEval(self.sx, case, binds, m, lt, self.names)
+        ce = CaseEval(self.sx, case, binds, m, lt, self.names, tile=(case.i, case.j))
         if self.post is not None:
             raw = self._raw_entry(block, ce)
             return ce, self._apply_post(block, case, ce, raw)
